@@ -1015,6 +1015,8 @@ def unary_object(I, name, v):
         m = I.find_method(v.cls, name)
         if m is not None:
             return I.call_function(m, [v], {})
+    if v is None:  # Python: `-None` is a TypeError
+        I.raise_("TypeError", f"bad operand type for unary {name}: 'NoneType'")
     raise PyvcError(f"unary {name} on {v!r} not modelled")
 
 
